@@ -150,7 +150,7 @@ def gen_heavy(rng, w, tail=None):
         return gen_net(rng, w)
     b = B()
     inputs = []
-    kind = rng.randrange(5)
+    kind = rng.randrange(6)
 
     def small(i, lo=1, hi=6):
         """a small runtime or compile-time value in cell i"""
@@ -209,6 +209,31 @@ def gen_heavy(rng, w, tail=None):
             flag(b, 5, 8)
             b.out(6)
         spin_cell = x
+    elif kind == 5:
+        # a compile-time constant in [2^31, 2^32) (or just outside) added to a run-time value, taken off
+        # again with the same amount built at run time, then compared with the original
+        a = rng.randint(1, 200)
+        b.inp(0)
+        inputs.append(a)
+        b.clear(3)
+        b.clear(4)
+        b.mulmove(0, [(3, 1), (4, 1)])
+        b.mulmove(4, [(0, 1)])
+        k = rng.choice([2, 3, 2, 3, 1, 4, 7])
+        s_ = rng.choice([30, 30, 30, 29, 31, w // 2 - 2]) if w == 64 else max(1, w // 2 - 2)
+        mults = pow2_mults(rng, max(1, s_))
+        b.const(6, k)
+        c1 = scale(b, 6, 7, mults)
+        b.mulmove(c1, [(0, 1)])
+        b.out(0)
+        b.inp(8)
+        inputs.append(k)
+        c2 = scale(b, 8, 9, mults)
+        b.mulmove(c2, [(0, -1)])
+        b.out(0)
+        b.mulmove(3, [(0, -1)])
+        flag(b, 0, 11)
+        spin_cell = 0
     elif kind == 2:
         # difference of two products
         mults = [rng.choice([2, 3, 5, 7, 16, 255, 256, 128, 100]) for _ in range(rng.randint(2, 9))]
